@@ -17,11 +17,13 @@ import (
 
 // C02 stream "manager": GroupQuotaManager on 1–3-level quota trees, one resource dimension.
 //
-// input: K n then n records  code k a b c d e
+// input: K+100*scale n then n records  code k a b c d e   (scale: EnableMinQuotaScale)
 //	0 UpdateQuota(k, parent=a, flags=b (1: isParent, 2: allowLent), max=c, min=d, sharedWeight=e)
 //	1 DeleteQuota(k)   2 the pod of (k, slot a) is replaced by one requesting b (0: just removed)
 //	3 cluster total = a   4 observe only
-// observable: after EVERY op RefreshRuntime(q01..qK) in name order, -1 for a name that is not live.
+// observable: after EVERY op RefreshRuntime(q01..qK) in name order, -1 for a name that is not live
+// (with scaling on: the fourth of four such passes — scaled mins are brought up to date lazily, one
+// quota per RefreshRuntime).
 // Ops that GroupQuotaManager's callers never issue are skipped here and in the model alike:
 // creating under a parent that is not a live parent quota, changing parent/isParent/allowLent of
 // a live quota, deleting a quota that still has children, pods in a parent quota.
@@ -50,9 +52,10 @@ func vtC02MgrQuota(k int, m vtC02MgrMeta, max, min, w int64) *v1alpha1.ElasticQu
 }
 
 func vtC02MgrExec(in []int64) []int64 {
-	K, n := int(in[0]), int(in[1])
+	K, n := int(in[0]%100), int(in[1])
+	scale := in[0] >= 100
 	huge := v1.ResourceList{vtC02CalcDim: *resource.NewQuantity(1<<62, resource.BinarySI)}
-	gqm := NewGroupQuotaManager("", false, huge, huge)
+	gqm := NewGroupQuotaManager("", scale, huge, huge)
 	meta := map[int]vtC02MgrMeta{}
 	pods := map[[2]int]*v1.Pod{}
 	var total int64
@@ -119,14 +122,24 @@ func vtC02MgrExec(in []int64) []int64 {
 			gqm.UpdateClusterTotalResource(vtC02CalcQty(rec[2] - total))
 			total = rec[2]
 		}
-		for id := 1; id <= K; id++ {
-			if _, ok := meta[id]; !ok {
-				obs = append(obs, -1)
-				continue
+		passes := 1
+		if scale {
+			passes = 4
+		}
+		for pass := 1; pass <= passes; pass++ {
+			for id := 1; id <= K; id++ {
+				if _, ok := meta[id]; !ok {
+					if pass == passes {
+						obs = append(obs, -1)
+					}
+					continue
+				}
+				rt := gqm.RefreshRuntime(vtC02MgrName(id))
+				if pass == passes {
+					q := rt[vtC02CalcDim]
+					obs = append(obs, q.Value())
+				}
 			}
-			rt := gqm.RefreshRuntime(vtC02MgrName(id))
-			q := rt[vtC02CalcDim]
-			obs = append(obs, q.Value())
 		}
 	}
 	return obs
@@ -140,14 +153,20 @@ type vtC02MgrFig struct {
 }
 
 func vtC02MgrGen(r *rand.Rand, i int) (string, []int64) {
-	style := []string{"small", "small", "small", "large", "large", "mixed"}[r.Intn(6)]
+	style := []string{"small", "small", "large", "large", "bytes", "mixed"}[r.Intn(6)]
 	shape := []string{"flat", "two", "two", "three"}[r.Intn(4)]
 	K := 3 + r.Intn(3)
+	scale := r.Intn(2) == 0 // EnableMinQuotaScale
 	pal := make([]int64, 4+r.Intn(3))
 	for j := range pal {
 		switch {
 		case style == "small" || (style == "mixed" && r.Intn(2) == 0):
 			pal[j] = int64(r.Intn(13))
+		case style == "bytes": // byte-scale values that are not round in binary: products leave the 53-bit mantissa
+			pal[j] = 10000000000 + r.Int63n(400000000000)
+			if r.Intn(3) == 0 {
+				pal[j] = []int64{100000000001, 33333333340, 77777777777, 123456789012, 99999999999}[r.Intn(5)]
+			}
 		default:
 			pal[j] = int64(1)<<40 + r.Int63n(1<<42)
 			if r.Intn(4) == 0 {
@@ -162,6 +181,9 @@ func vtC02MgrGen(r *rand.Rand, i int) (string, []int64) {
 		}
 		if style == "small" {
 			return 20 + int64(r.Intn(30))
+		}
+		if style == "bytes" {
+			return 2000000000000 + r.Int63n(1000000000000)
 		}
 		return int64(1)<<52 + r.Int63n(1<<40)
 	}
@@ -245,7 +267,11 @@ func vtC02MgrGen(r *rand.Rand, i int) (string, []int64) {
 			hi = lo
 		}
 		var t int64
-		switch r.Intn(5) {
+		x := r.Intn(5)
+		if scale && r.Intn(3) == 0 {
+			x = 0 // exactly the sum of the minimums: nothing has to be scaled
+		}
+		switch x {
 		case 0:
 			t = lo
 		case 1:
@@ -310,6 +336,16 @@ func vtC02MgrGen(r *rand.Rand, i int) (string, []int64) {
 			del(pickLive(true))
 		case x < 15:
 			emit(4, 0, 0, 0, 0, 0, 0)
+		case x < 16 && scale && shape != "flat": // a parent quota that can get exactly the sum of its children's minimums
+			var sum int64
+			for j := 1; j <= K; j++ {
+				if cur[j].live && cur[j].meta.parent == 1 {
+					sum += cur[j].min
+				}
+			}
+			if cur[1].live && sum > 0 {
+				update(1, sum+int64(r.Intn(2)), cur[1].min, cur[1].w)
+			}
 		case x < 16: // the same object again
 			k := pickLive(false)
 			update(k, cur[k].max, cur[k].min, cur[k].w)
@@ -335,8 +371,14 @@ func vtC02MgrGen(r *rand.Rand, i int) (string, []int64) {
 			}
 		}
 	}
-	in := append([]int64{int64(K), int64(len(ops) / 7)}, ops...)
-	return style + "-" + shape, in
+	hdr := int64(K)
+	label := style + "-" + shape
+	if scale {
+		hdr += 100
+		label += "-scale"
+	}
+	in := append([]int64{hdr, int64(len(ops) / 7)}, ops...)
+	return label, in
 }
 
 func TestVerifC02Mgr(t *testing.T) { vtMain(t, "C02", vtC02MgrGen, vtC02MgrExec) }
